@@ -66,6 +66,7 @@ def showOutcome {α : Type} (f : α → String) : Outcome α → String
   | .unicodeError s e => s!"uerr {s} {e}"
   | .osError n => s!"oserr {n}"
   | .assertion => "assert"
+  | .valueError => "valerr"
   | .outOfFuel => "fuel"
 
 def encOf (c : Char) : Enc :=
